@@ -69,6 +69,35 @@ def strategy(tier):
     return _case()
 
 
+def matrix(tier):
+    """Exhaustive core: every relation kind x which of its two endpoints are DECLARED elements x identified / attributed."""
+    n = lambda l: {"ns": "http://a/", "local": l, "prefix": "ex", "as": "qn"}
+    elem = {"Entity": "entity", "Activity": "activity", "Agent": "agent"}
+    for kind in spec.RELATION_KINDS:
+        fargs = spec.formal_args(kind)
+        if fargs[1][1] != "ref":
+            continue
+        k1 = elem.get(ARG_KIND.get(fargs[0][0], "Entity"), "entity")
+        k2 = elem.get(ARG_KIND.get(fargs[1][0], "Entity"), "entity")
+        for d1, d2 in ((True, True), (True, False), (False, True), (False, False)):
+            if kind == "influence" and not (d1 and d2):
+                continue        # documented as skipped
+            for variant in ("plain", "identified", "attributed"):
+                ops = [["ns", 0, "ex", "http://a/"]]
+                if d1:
+                    ops.append(["rec", 0, k1, n("x1"), {}, [], "factory"])
+                if d2:
+                    ops.append(["rec", 0, k2, n("x2"), {}, [], "factory"])
+                formal = {fargs[0][0]: {"name": n("x1")}, fargs[1][0]: {"name": n("x2")}}
+                for a, t in fargs[2:spec.mandatory(kind)]:
+                    formal[a] = {"name": n("x3")}
+                ident = n("r1") if variant == "identified" else None
+                attrs = [[n("k"), {"k": "str", "v": "v"}]] if variant == "attributed" else []
+                via = "new_record" if (ident is not None and not spec.KINDS[kind][6]) else "factory"
+                ops.append(["rec", 0, kind, ident, formal, attrs, via])
+                yield {"profile": "graph", "ops": ops, "cell": [kind, d1, d2, variant]}
+
+
 def _it(b, **kw):
     d = {"b": b}
     d.update(kw)
